@@ -178,7 +178,13 @@ pub fn run_case(t: &mut Toks) -> Vec<i128> {
                 let id = t.u64();
                 match entries.remove(&id) {
                     None => out.push(20),
-                    Some(e) => match guarded(|| e.exit()) {
+                    Some(e) => match guarded(|| {
+                        // every other entry ends with a business error recorded on it: the accounting is the same
+                        if id % 2 == 1 {
+                            e.set_err(sentinel_core::Error::msg("biz error"));
+                        }
+                        e.exit()
+                    }) {
                         Some(_) => out.push(2),
                         None => {
                             out.push(-1);
